@@ -35,7 +35,7 @@ func cmdClient(args []string) {
 		network = "tcp6"
 	}
 	lens := []int{0, 1, 5, 6, 15, 16, 17, 31, 32, 33, 47, 48, 49, 63, 64, 65, 95, 96, 107, 120, 200, 255, 256, 257, 1000}
-	keyLens := []int{0, 1, 6, 16, 51, 70}
+	keyLens := []int{0, 1, 6, 16, 51, 70, 123, 300}
 	huge := 1 + n/400
 	// secrets of consecutive clients are adjacent sub-slices of one buffer
 	mk := func() []byte {
